@@ -310,6 +310,13 @@ def _apply_block(text, first_line, relpath, directives, tmpl_file, log, stub):
                 if not mi:
                     raise ExtractError('cannot find `in` of for loop')
                 inserts.append((mi.end(), [], ' ' + d['iter'] + ':'))
+        elif k == 'after_loop':
+            loops = [l for l in _loop_positions(msk) if l[0] > body_open]
+            if d['k'] > len(loops) or d['k'] < 1:
+                raise ExtractError('after_loop %d: function has %d loops' % (d['k'], len(loops)))
+            brace = loops[d['k'] - 1][2]
+            close = lex.match_bracket(msk, brace)
+            inserts.append((close + 1, d['lines'], ''))
         elif k in ('before', 'after'):
             lines = text.split('\n')
             hits = [i for i, l in enumerate(lines) if re.search(d['regex'], l)]
@@ -324,6 +331,30 @@ def _apply_block(text, first_line, relpath, directives, tmpl_file, log, stub):
             inserts.append((off, d['lines'], ''))
     # build output
     out = []
+    # D12: bind the tail expression of the body to a name so that proof text can follow it
+    for d in directives:
+        if d['kind'] == 'bind_tail':
+            j = body_open + 1
+            last_semi = body_open
+            while j < body_close:
+                c = msk[j]
+                if c in lex.OPEN:
+                    j = lex.match_bracket(msk, j) + 1
+                    continue
+                if c == ';':
+                    last_semi = j
+                j += 1
+            tail_start = last_semi + 1
+            while tail_start < body_close and text[tail_start] in ' \t\n':
+                tail_start += 1
+            tail_end = body_close
+            while tail_end > tail_start and text[tail_end - 1] in ' \t\n':
+                tail_end -= 1
+            if tail_start >= tail_end:
+                raise ExtractError('bind_tail: function has no tail expression')
+            inserts.append((tail_start, [], 'let %s = ' % d['name']))
+            inserts.append((tail_end, [Line(';', ('spec', tmpl_file, 0))] + d['lines'] + [Line(d['name'], ('spec', tmpl_file, 0))], ''))
+            log.append(('D12', 'tail expression bound to `%s`' % d['name'], text.count('\n', 0, tail_start)))
     inserts.sort(key=lambda x: x[0])
     pos = 0
     cur_line = first_line
@@ -438,10 +469,15 @@ def assemble(unit_name, repo=None):
                         p2, kv2 = _kv(r2.split())
                         cur = {'kind': 'loop', 'k': int(p2[0]), 'iter': kv2.get('iter'),
                                'total': int(kv2['of']) if 'of' in kv2 else None, 'lines': []}
+                    elif c2 == 'after_loop':
+                        p2, kv2 = _kv(r2.split())
+                        cur = {'kind': 'after_loop', 'k': int(p2[0]), 'lines': []}
                     elif c2 in ('before', 'after'):
                         rx, tail = _parse_regex_directive(r2, c2)
                         p2, kv2 = _kv(tail.split())
                         cur = {'kind': c2, 'regex': rx, 'nth': int(kv2.get('nth', 1)), 'lines': []}
+                    elif c2 == 'bind_tail':
+                        cur = {'kind': 'bind_tail', 'name': r2.split()[0] if r2.split() else '_ret', 'lines': []}
                     elif c2 == 'fmt':
                         p2, kv2 = _kv(r2.split())
                         cur = {'kind': 'fmt', 'nth': int(p2[0]) if p2 else 1, 'lines': []}
